@@ -428,9 +428,10 @@ partial def loop (inp out : IO.FS.Stream) (st : St) : IO St := do
       if verdict == "ok" then []
       else
         let what := (verdict.drop 4).toString
-        let clause := ((what.splitOn "@").headD what)
-        let aud := if clause.startsWith "generator" then "RNG" else "SH"
-        [s!"A {aud} {hid} 0 {clause} tr=1 op=step"]
+        let clauses := ((what.splitOn "@").headD what).splitOn "+"
+        clauses.map fun clause =>
+          let aud := if clause.startsWith "generator" then "RNG" else "SH"
+          s!"A {aud} {hid} 0 {clause} tr=1 op=step"
     for l in lines do emit out l
     loop inp out { st with stats := bump (bump st.stats "long:histories") (if nInstr > 1024 then "long:more_than_1024_instructions" else "long:short"),
                            nHist := st.nHist + 1, nOps := st.nOps + nInstr, nNontrivial := st.nNontrivial + 1,
